@@ -167,6 +167,17 @@ func genXCall(r *Rng, kws []xKw, delim string, depth int) xCall {
 		}
 		extract = false
 	}
+	if mode >= 95 && kw.id-1 < nargs {
+		// a literal the lexer accepts but that cannot be decoded (octal above 255, surrogate half, beyond U+10FFFF): the
+		// evaluator fails on it at run time, so no string is ever passed: nothing is extracted, the header stays
+		bad := []string{`'\400'`, `'\ud800'`, `'\U00110000'`, `'a\777'`}
+		if delim == `'` {
+			bad = []string{`"\400"`, `"\ud800"`, `"\U00110000"`, `"a\777"`}
+		}
+		args[kw.id-1] = r.Pick(bad)
+		lit[kw.id-1] = false
+		extract = false
+	}
 	if depth > 0 && r.Chance(15) && nargs > n { // a nested keyword call as an extra argument
 		inner := genXCall(r, kws, delim, depth-1)
 		_ = inner // nested calls are generated separately to keep the expectation simple
